@@ -303,6 +303,7 @@ def subspaces(tier):
         subs.append(('unmerged-%s' % tn, um()))
     for tn in ('8051', '16c84'):
         subs.append(('merged-%s-depth%d' % (tn, md), merged(tn, md, OPS)))
+    subs.append(('padded-labels-under-phase,org-before-the-first-cpu-statement', list(extra_cases())))
     if tier != 'quick':
         for th, ops in THEMES.items():
             subs.append(('merged-8051-theme-%s-depth7' % th, merged('8051', 7, ops)))
@@ -310,10 +311,80 @@ def subspaces(tier):
 
 
 def describe(case):
+    if case['k'] == 'x':
+        return case
     return '%s: %s' % (case['t'], ' / '.join(case['hist'] + [case['op']]))
 
 
+def extra_cases():
+    """(x) 68000 with PADDING ON: a label on (or in front of) a word that gets a pad byte, with and without a PHASE offset - the label
+    reads the padded load address plus the offset;  (y) the target given with -cpu only: an ORG in the code segment in front of
+    the first SEGMENT or CPU statement holds when the code segment is (re)entered"""
+    for ph in (None, 0x8000, 0x20):
+        for nb in (1, 2, 3):
+            for att in (0, 1):
+                for word in ('dc.w $1234', 'dc.l $12345678', 'move.w d0,d1'):
+                    yield {'k': 'x', 'sub': 'pad', 'ph': ph, 'nb': nb, 'att': att, 'word': word}
+    for org in (0x200, 0x41):
+        for mid in ('segdata', 'cpu', 'segdata+cpu', 'none'):
+            for first in ('org', 'org+res'):
+                yield {'k': 'x', 'sub': 'cpuopt', 'org': org, 'mid': mid, 'first': first}
+
+
+def ev_extra(case):
+    core.fresh()
+    if case['sub'] == 'pad':
+        load = 0x1000
+        l = ['\tcpu 68000', '\tpadding on', '\torg $1000']
+        off = 0
+        if case['ph'] is not None:
+            l.append('\tphase $%x' % case['ph'])
+            off = case['ph'] - load
+        l.append('\tdc.b ' + ','.join(['1'] * case['nb']))
+        pc = load + case['nb']
+        pad = pc & 1
+        if case['att']:
+            l.append('lab:\t' + case['word'])
+        else:
+            l += ['lab:', '\t' + case['word']]
+        want = pc + pad + off
+        l += ['\tdc.l lab']
+        opts = []
+    else:
+        l = ['\torg %d' % case['org']]
+        if case['first'] == 'org+res':
+            l = ['\torg %d' % (case['org'] - 2), '\tds 2']
+        if 'segdata' in case['mid']:
+            l += ['\tsegment data', '\torg 30h', '\tds 2']
+        if 'cpu' in case['mid']:
+            l += ['\tcpu 8051']
+        if case['mid'] != 'none':
+            l += ['\tsegment code']
+        l += ['lab:\tdb 1', '\tdb 0,0,0', '\tdw lab']
+        want = case['org']
+        opts = ['-cpu', '8051']
+    core.put('a.asm', '\n'.join(l) + '\n')
+    o = core.run('asl', ['-q'] + opts + ['a.asm'])
+    d = ' / '.join(x.strip() for x in l) + (' | asl ' + ' '.join(opts) if opts else '')
+    ck = core.crashkind(o)
+    if ck:
+        return core.R(False, ck, 'extra/crash/' + ck, '%s on %s' % (ck, d))
+    p = core.get('a.p')
+    if o.rc != 0 or p is None:
+        return core.R(False, 'rejected', 'extra/rejected/' + case['sub'], 'rc=%s %s on %s' % (o.rc, (o.out + o.err)[-160:].decode('latin-1'), d))
+    recs = pfile.data_records(pfile.read(p))
+    data = b''.join(r.data for r in recs)
+    got = int.from_bytes(data[-4:], 'big') if case['sub'] == 'pad' else int.from_bytes(data[-2:], 'little')
+    if got != want:
+        return core.R(False, 'label', 'extra/%s/label-value' % case['sub'], 'label reads %x, model %x on %s' % (got, want, d))
+    if case['sub'] == 'cpuopt' and recs[0].start != (want if case['first'] == 'org' else want):
+        return core.R(False, 'label', 'extra/cpuopt/load-address', 'first code record at %x, model %x on %s' % (recs[0].start, want, d))
+    return core.R(True, 'extra-ok', states=['x:%s:%x' % (case['sub'], want)])
+
+
 def evaluate(case):
+    if case['k'] == 'x':
+        return ev_extra(case)
     tname = case['t']
     T = TARGETS[tname]
     seq = case['hist'] + [case['op']]
